@@ -51,6 +51,10 @@ func latticeLine(r *rand.Rand, n, side int) [][]int {
 	return pts
 }
 
+// zBase is added to every Z and M payload lineOf produces (an exact translation of the payload axis: timestamps, heights
+// above a far datum); the interpolation kind subtracts it again from what the library returns.
+var zBase float64
+
 func lineOf(pts [][]int, ct geom.CoordinatesType) (geom.LineString, []int) {
 	var fs []float64
 	zs := []int{}
@@ -63,10 +67,10 @@ func lineOf(pts [][]int, ct geom.CoordinatesType) (geom.LineString, []int) {
 		zs = append(zs, z)
 		fs = append(fs, float64(p[0]), float64(p[1]))
 		if ct.Is3D() {
-			fs = append(fs, float64(z))
+			fs = append(fs, float64(z)+zBase)
 		}
 		if ct.IsMeasured() {
-			fs = append(fs, float64(2*z))
+			fs = append(fs, float64(2*z)+zBase)
 		}
 	}
 	return geom.NewLineString(geom.NewSequence(fs, ct)), zs
@@ -94,7 +98,7 @@ func linearGen(r *rand.Rand, n int, tier string, emit func(Case)) {
 			if r.Intn(3) == 0 {
 				fn = []int{0, fd}[r.Intn(2)]
 			}
-			c := Case{"kind": "interp", "line": ln, "fn": fn, "fd": fd, "ct": r.Intn(4)}
+			c := Case{"kind": "interp", "line": ln, "fn": fn, "fd": fd, "ct": r.Intn(4), "zb": r.Intn(4)}
 			if r.Intn(4) == 0 {
 				c["rot"] = randRot(r) // general-position float image: arc-length fractions are preserved
 			}
@@ -161,6 +165,12 @@ func linearGen(r *rand.Rand, n int, tier string, emit func(Case)) {
 			}
 			emit(Case{"kind": "snap", "x": bitsHex(x), "dp": r.Intn(641) - 320})
 		case 6:
+			if r.Intn(3) == 0 {
+				// the same three-digit mantissas at every magnitude the property names, with a grid near the value's own size
+				e := r.Intn(591) - 295
+				emit(Case{"kind": "snapdec", "k": r.Intn(1999) - 999, "e": e, "dp": -e + r.Intn(7) - 3})
+				continue
+			}
 			emit(Case{"kind": "snapdec", "k": r.Intn(1999) - 999, "e": r.Intn(4) - 2, "dp": r.Intn(4) - 1})
 		default:
 			l := &lgen{r: r, N: 3 + r.Intn(5)}
@@ -234,7 +244,13 @@ func linearExec(c Case) Event {
 	switch c.str("kind") {
 	case "interp":
 		pts := intsOf(c["line"])
+		zBase = 0
+		if _, ok := c["zb"]; ok {
+			zBase = []float64{0, 1700000000, 1 << 40, -(1 << 31)}[c.num("zb")%4]
+		}
 		ls, zs := lineOf(pts, ct)
+		base := zBase
+		zBase = 0
 		ev["line"], ev["zs"], ev["fn"], ev["fd"] = pts, zs, c.num("fn"), c.num("fd")
 		f, _ := mapOf(c)
 		inv := invOf(c)
@@ -254,9 +270,9 @@ func linearExec(c Case) Event {
 				ev["q"] = []int{scaled(co.X, 1024), scaled(co.Y, 1024)}
 				z := 0.0
 				if ct.Is3D() {
-					z = co.Z
+					z = co.Z - base
 				} else if ct.IsMeasured() {
-					z = co.M / 2
+					z = (co.M - base) / 2
 				} else {
 					// no payload: make the z check pass trivially by logging the expected value's slot as 0 with zs = 0
 					ev["zs"] = make([]int, len(pts))
@@ -412,7 +428,9 @@ func linearExec(c Case) Event {
 		}
 		xy, _ := geom.XY{X: x, Y: 0}.AsPoint().SnapToGrid(dp).XY()
 		// shortest decimal representation of the result: digits * 10^exp
-		txt := strconv.FormatFloat(xy.X, 'e', -1, 64)
+		// nine significant digits (the result of a snap is n * 10^-dp computed in floats: its shortest representation may
+		// need all 17 digits; the verdict is taken in units that are at least 1e-7 of the value, so 1e-9 is noise)
+		txt := strconv.FormatFloat(xy.X, 'e', 8, 64)
 		mant, exp := txt, 0
 		if i := strings.IndexByte(txt, 'e'); i >= 0 {
 			mant = txt[:i]
@@ -428,11 +446,15 @@ func linearExec(c Case) Event {
 		if err != nil || sd >= 1<<30 {
 			panic("snapped value has too many digits: " + txt)
 		}
+		for sd != 0 && sd%10 == 0 {
+			sd /= 10
+			exp++
+		}
 		if neg {
 			sd = -sd
 		}
 		if sd == 0 {
-			exp = 0
+			exp = e // zero has every exponent: take the input's, so that the comparison stays in small integers
 		}
 		ev["k"], ev["e"], ev["dp"], ev["sd"], ev["sg"] = k, e, dp, sd, exp
 	case "orient":
